@@ -50,7 +50,7 @@ def variant(run):
     v = run.get("proto", "?")
     if run.get("proto") == "Http2":
         v += "/cont%d" % run.get("conts", 0)
-    return v
+    return v + "/" + run.get("mode", "?")     # listener configuration: fixed | auto | list
 
 
 def run(ctx):
@@ -61,7 +61,12 @@ def run(ctx):
     raw = os.path.join(ctx.tmp, "zones_raw.jsonl")
     r = vlib.run_tlc(ctx, "wire", "Framing", "Framing.cfg" if q else "Framing_thorough.cfg", workers=1, cases_to=raw, timeout=900)
     ctx.add_tlc(r)
-    for d in ("OffByOne", "DrainHeader", "ConsumePartial"):
+    # streams that start with a fixed connection preface (HTTP/2): cuts inside the preface x cuts inside the frames
+    praw = os.path.join(ctx.tmp, "zones_pre_raw.jsonl")
+    r = vlib.run_tlc(ctx, "wire", "Framing", "Framing_preface.cfg" if q else "Framing_preface_thorough.cfg", workers=1,
+                     cases_to=praw, timeout=900)
+    ctx.add_tlc(r)
+    for d in ("OffByOne", "DrainHeader", "ConsumePartial", "PrefaceFlagEarly"):
         if vlib.run_tlc(ctx, "wire", "Framing", "Framing_defect_%s.cfg" % d, expect_ok=False)["ok"]:
             raise vlib.Inconclusive("Framing model does not reject defect %s: invariants vacuous" % d)
     ctx.add_tlc(vlib.run_tlc(ctx, "wire", "Detect", "Detect.cfg"))
@@ -75,11 +80,19 @@ def run(ctx):
     sampled = len(big) > cap
     if sampled:
         big = rng.sample(big, cap)
+    plines = sorted(set(open(praw).read().splitlines()))
+    pcap = 4000
+    if len(plines) > pcap:
+        # keep every case whose first read ends inside the preface with <= 1 frame, sample the rest
+        keep = [ln for ln in plines if len(json.loads(ln)["frames"]) == 1]
+        rest = [ln for ln in plines if len(json.loads(ln)["frames"]) > 1]
+        plines = keep + rng.sample(rest, min(pcap, len(rest)))
+        sampled = True
     zones = os.path.join(ctx.tmp, "zones.jsonl")
     with open(zones, "w") as fh:
-        for ln in small + big:
+        for ln in small + big + plines:
             fh.write(ln + "\n")
-    ncases = len(small) + len(big)
+    ncases = len(small) + len(big) + len(plines)
 
     # ---------- 2. real code: record (one driver process per protocol, in parallel)
     binary = vlib.go_build("c07")
@@ -149,7 +162,10 @@ def run(ctx):
     ctx.cov["rule"] = ("a trace = one real connection fed one chunking; per protocol variant (bolt, boltv2, each also with v1/v2/oneway "
                        "frames mixed, dubbo, dubbo-thrift, tars, Http1, Http2 with 0/1/2 CONTINUATION): every zone chunking TLC "
                        "enumerates for <=2 frames (%d cases%s), every single cut and byte-by-byte delivery of a 4-message stream "
-                       "(7 in thorough), %s seeded random chunkings; alternately with fixed protocol and with automatic detection; "
+                       "(7 in thorough), %s seeded random chunkings; every cut set is played on a connection configured with the one protocol "
+                       "(stream connection created up front, no matcher - proxy.InitializeReadFilterCallbacks) AND with automatic "
+                       "detection (bytewise/random also with a protocol list); Http2 additionally gets the preface cases: cuts at "
+                       "first byte / middle / last-1 / end of the 24-byte connection preface x the frame zones; "
                        "an evaluation = one chunk (feed) or one matcher/selection answer judged by TLC; detection: every prefix up "
                        "to 64 bytes, first-frame end -1/0 and full stream, 3 valid streams per variant; e2e: the zone chunkings and random "
                        "chunkings over TCP into an in-process MOSN, upstream arrivals judged" % (
